@@ -2,7 +2,10 @@
     - reordering / selecting the STORED rows without re-standardising (reorder_taxa, sort_taxa, group_taxa, copies) keeps the raw
       values: unscale commutes with every taxa selection when location and scale are kept;
     - the stored (standardised) column does not depend on the unit or the origin of the raw values (affine covariance);
-    - a history is compositional: what follows depends only on the state reached, never on how it was reached. *)
+    - a history is compositional: what follows depends only on the state reached, never on how it was reached;
+    - the label keywords (taxa= / taxa_grp= explicit or omitted) of insert / adjoin / append / incorp never influence the values:
+      a matrix operand contributes values.unscale() whichever keywords accompany it, and omitting a keyword is the same as
+      handing over the operand's own labels. *)
 From Coq Require Import Qfield Setoid Morphisms.
 From PV Require Import Lib.Common Model.C15_Bv Proofs.C15_Bv.
 Local Open Scope Q_scope.
@@ -62,3 +65,64 @@ Proof.
 Qed.
 Lemma run_spec_app (ops1 ops2 : list op) (r : rawst) : run_spec r (ops1 ++ ops2) = run_spec (run_spec r ops1) ops2.
 Proof. unfold run_spec. apply fold_left_app. Qed.
+
+(** * label keywords of the routines that accept [values] *)
+(** the same operand with other label keywords (taxa= / taxa_grp= given explicitly or omitted) *)
+Definition with_kw (v : operand) (kt kg : option (list Z)) : operand :=
+  mkopd (o_cols v) (o_k v) (o_bv v) (o_isinst v) (o_vtaxa v) (o_vgrp v) kt kg.
+Definition op_with_kw (o : op) (kt kg : option (list Z)) : op :=
+  match o with
+  | OInsert ob v => OInsert ob (with_kw v kt kg)
+  | OAdjoin v => OAdjoin (with_kw v kt kg)
+  | OAppend v => OAppend (with_kw v kt kg)
+  | OIncorp ob v => OIncorp ob (with_kw v kt kg)
+  | _ => o
+  end.
+
+(** what an operand contributes is values.unscale() (its raw values when its parameters pass the run-time check), whichever label
+    keywords accompany it *)
+Lemma opd_unscaled_kw v kt kg : opd_unscaled (with_kw v kt kg) = opd_unscaled v.
+Proof. reflexivity. Qed.
+Lemma opd_unscaled_kw_raw v kt kg : opd_params_ok v = true -> cols_eq (opd_unscaled (with_kw v kt kg)) (opd_raw v).
+Proof. intros H. rewrite opd_unscaled_kw. now apply opd_unscaled_raw. Qed.
+
+(** the values (and the number of taxa) of the result of insert / adjoin / append / incorp do not depend on which label keywords
+    were given: two calls that differ only in taxa= / taxa_grp= and both succeed yield the same stored columns, locations, scales *)
+Lemma step_values_kw_independent b o p kt kg b1 b2 :
+  step b o p = Some b1 -> step b (op_with_kw o kt kg) p = Some b2 -> bcols b1 = bcols b2 /\ bn b1 = bn b2.
+Proof.
+  unfold step. destruct o; cbn [op_with_kw]; try (intros H1 H2; rewrite H1 in H2; injection H2 as <-; now split).
+  all: cbn [raw_step]; unfold operand_usable; cbn [with_kw o_bv o_isinst o_k]; rewrite ?opd_unscaled_kw.
+  all: destruct (match o_bv v with Some _ => o_isinst v | None => true end); [|discriminate].
+  - destruct (map2_cols _ _ _) as [c|]; [|discriminate].
+    destruct (copy_labels _ _ v _) as [[t g]|]; [|discriminate]. destruct (copy_labels _ _ (with_kw v kt kg) _) as [[t' g']|]; [|destruct (new_n _ _); discriminate].
+    destruct (new_n _ _) as [n|]; [|discriminate]. unfold chk; cbn [r_n r_taxa r_grp].
+    destruct (_ && _); [|discriminate]. destruct (_ && _); [|discriminate].
+    unfold restd; cbn [r_cols r_n r_taxa r_grp]. destruct (Nat.eqb _ _); [|discriminate]. intros [= <-] [= <-]. now split.
+  - destruct (map2_cols _ _ _) as [c|]; [|discriminate].
+    destruct (copy_labels _ _ v _) as [[t g]|]; [|discriminate]. destruct (copy_labels _ _ (with_kw v kt kg) _) as [[t' g']|]; [|discriminate].
+    unfold chk; cbn [r_n r_taxa r_grp].
+    destruct (_ && _); [|discriminate]. destruct (_ && _); [|discriminate].
+    unfold restd; cbn [r_cols r_n r_taxa r_grp]. destruct (Nat.eqb _ _); [|discriminate]. intros [= <-] [= <-]. now split.
+  - destruct (map2_cols _ _ _) as [c|]; [|discriminate].
+    destruct (inplace_labels _ _ v _) as [[t g]|]; [|discriminate]. destruct (inplace_labels _ _ (with_kw v kt kg) _) as [[t' g']|]; [|discriminate].
+    unfold restd; cbn [r_cols r_n r_taxa r_grp]. destruct (Nat.eqb _ _); [|discriminate]. intros [= <-] [= <-]. now split.
+  - destruct (map2_cols _ _ _) as [c|]; [|discriminate].
+    destruct (inplace_labels _ _ v _) as [[t g]|]; [|discriminate]. destruct (inplace_labels _ _ (with_kw v kt kg) _) as [[t' g']|]; [|destruct (new_n _ _); discriminate].
+    destruct (new_n _ _) as [n|]; [|discriminate].
+    unfold restd; cbn [r_cols r_n r_taxa r_grp]. destruct (Nat.eqb _ _); [|discriminate]. intros [= <-] [= <-]. now split.
+Qed.
+
+(** omitting a label keyword with a matrix operand = handing over the operand's own labels: the whole step is the same *)
+Lemma step_kw_default b o p v : op_operand o = Some v -> o_bv v <> None ->
+  step b (op_with_kw o None None) p = step b (op_with_kw o (o_vtaxa v) (o_vgrp v)) p.
+Proof.
+  intros Ho Hb. unfold step.
+  assert (Hc : forall st sg j, copy_labels st sg (with_kw v None None) j = copy_labels st sg (with_kw v (o_vtaxa v) (o_vgrp v)) j).
+  { intros. unfold copy_labels; cbn [with_kw o_bv o_ataxa o_agrp o_vtaxa o_vgrp o_k].
+    destruct (o_bv v); [|congruence]. destruct (o_vtaxa v), (o_vgrp v); reflexivity. }
+  assert (Hi : forall st sg j, inplace_labels st sg (with_kw v None None) j = inplace_labels st sg (with_kw v (o_vtaxa v) (o_vgrp v)) j).
+  { intros. unfold inplace_labels; cbn [with_kw o_bv o_ataxa o_agrp o_vtaxa o_vgrp o_k].
+    destruct (o_bv v); [|congruence]. destruct (o_vtaxa v), (o_vgrp v); reflexivity. }
+  destruct o; cbn in Ho; try discriminate; injection Ho as ->; cbn [op_with_kw raw_step]; rewrite ?opd_unscaled_kw, ?Hc, ?Hi; reflexivity.
+Qed.
